@@ -376,6 +376,15 @@ func TestCheck(t *testing.T) {
 	if r.Replay != nil {
 		var c Case
 		r.DecodeReplay(&c)
+		if strings.HasPrefix(c.Wiring, "program-") {
+			k, d := executeProgramWiring(c)
+			if k == "inconclusive" {
+				r.Inconclusive(c.String() + ": " + d)
+				return
+			}
+			record(c, k, d, false)
+			return
+		}
 		if strings.HasPrefix(c.Wiring, "config-") {
 			k, d := executeConfigWiring(c)
 			if k == "inconclusive" {
@@ -432,6 +441,18 @@ func TestCheck(t *testing.T) {
 	for _, c := range configWiringCases() {
 		if r.Mine(idx) {
 			k, d := executeConfigWiring(c)
+			if k == "inconclusive" {
+				r.Inconclusive(c.String() + " " + c.Wiring + ": " + d)
+				r.Eval(1)
+			} else {
+				record(c, k, d, false)
+			}
+		}
+		idx++
+	}
+	for _, c := range programWiringCases() {
+		if r.Mine(idx) {
+			k, d := executeProgramWiring(c)
 			if k == "inconclusive" {
 				r.Inconclusive(c.String() + " " + c.Wiring + ": " + d)
 				r.Eval(1)
